@@ -57,6 +57,11 @@ def _number(x):
     frac * prod p^(k/2)."""
     if x.is_Rational:
         return Fraction(int(x.p), int(x.q)), {}
+    if x.is_Float:
+        # python floats written in the source (e.g. 0.5): read as the exact rational
+        from sympy import nsimplify
+        r = nsimplify(x, rational=True)
+        return Fraction(int(r.p), int(r.q)), {}
     if isinstance(x, Pow) and x.args[0].is_Rational and x.args[1].is_Rational:
         base, ex = x.args
         ex2 = ex * 2
